@@ -1,6 +1,7 @@
 SPECIFICATION Spec
 CONSTANTS
   DenseLens = {1100}
+  DenseExplicit = {0, 1024}
   Emit = FALSE
 INVARIANTS WideLaws WideIdempotent WideAssignedSmall WideTokensIdentify ScaleInjective EmitVector
 CHECK_DEADLOCK FALSE
